@@ -23,8 +23,8 @@ VERIF = os.path.dirname(os.path.dirname(os.path.abspath(__file__)))
 PY = sys.executable
 
 TIERS = {
-    'C16': {'quick': {'runs': 2400, 'det': 48, 'sweeps': 2},
-            'thorough': {'runs': 80000, 'det': 512, 'sweeps': 40}},
+    'C16': {'quick': {'runs': 2400, 'det': 48, 'sweeps': 8},
+            'thorough': {'runs': 60000, 'det': 512, 'sweeps': 400}},
     'C17': {'quick': {'runs': 6000, 'det': 48, 'fresh': 16},
             'thorough': {'runs': 400000, 'det': 512, 'fresh': 300}},
 }
@@ -111,17 +111,18 @@ def _sweep(prop, tier, master, j, part):
     from .workload import call_repr
     ctx = CTX
     rng = random.Random(run_seed(master, prop, tier + '-sweep', j))
+    kind = c16.SWEEP_KINDS[j % len(c16.SWEEP_KINDS)]
     spec = c16.gen_spec(ctx, rng, 'quick', force={'T': 2, 'counts': [1, 1], 'plan': 'one', 'gran': 'line',
-                                                   'mix': rng.choice(['geo', 'geo', 'forward', 'inverse', 'boundary'])})
+                                                   'mix': rng.choice(['geo', 'geo', 'forward', 'inverse', 'boundary'])}) \
+        if kind == 'far-cold' and rng.random() < 0.5 else c16.gen_sweep(ctx, rng, kind)
+    spec['seed'] = run_seed(master, prop, tier + '-sweep', j) >> 16
     la = ctx.oracle(spec['threads'][0][0])['steps']
     lb = ctx.oracle(spec['threads'][1][0])['steps']
-    if la > 6000 and lb < la:
-        spec['threads'].reverse()
-        la, lb = lb, la
     ks = list(range(la + 1))
     exhaustive = True
-    if len(ks) > 4000:
-        ks = sorted(rng.sample(ks, 4000))
+    cap = 2500 if tier == 'quick' else 6000
+    if len(ks) > cap:
+        ks = sorted(rng.sample(ks, cap))
         exhaustive = False
     mine = ks[part::SWEEP_PARTS]
     pairs = set()
@@ -137,7 +138,7 @@ def _sweep(prop, tier, master, j, part):
                           'results': res2['results'], 'post': res2['post']}
         pairs.update(tuple(p) for p in res['switch_pairs'])
     return {'sweep': j, 'part': part, 'A': call_repr(spec['threads'][0][0], 70), 'B': call_repr(spec['threads'][1][0], 70),
-            'len_A': la, 'len_B': lb, 'temp': spec['conf']['temp'], 'points': len(mine), 'of': len(ks),
+            'len_A': la, 'len_B': lb, 'kind': kind, 'warm_calls': len(spec['warm']), 'points': len(mine), 'of': len(ks),
             'exhaustive': exhaustive, 'pairs': sorted(pairs)}, None
 
 
@@ -230,8 +231,9 @@ def harness_error(msg):
 
 
 def write_replay(prop, tier, master, root, viol_rec):
-    os.makedirs(os.path.join(VERIF, 'replays'), exist_ok=True)
-    path = os.path.join(VERIF, 'replays', '%s-%d.json' % (prop, viol_rec['seed']))
+    rdir = os.environ.get('A5SIM_REPLAY_DIR') or os.path.join(VERIF, 'replays')
+    os.makedirs(rdir, exist_ok=True)
+    path = os.path.join(rdir, '%s-%d.json' % (prop, viol_rec['seed']))
     doc = {
         'property': prop, 'kind': viol_rec['violation']['kind'], 'VERIF_SEED': master, 'tier': tier,
         'run_index': viol_rec['i'], 'run_seed': viol_rec['seed'], 'tree': tree_id(root),
@@ -255,7 +257,7 @@ def do_replay(prop, path, root, quiet=False):
         v = c16.judge(CTX, spec, res, explain=True)
         if v is not None and v.get('kind') == 'history-dependence':
             v = None
-        obs = {'results': res['results'], 'post': res['post'], 'segments': res['segments']}
+        obs = {'results': res['results'], 'post': res['post'], 'post_seq': res['post_seq'], 'segments': res['segments']}
     else:
         out = CTX.run_history(spec)
         v = c17.judge(CTX, spec, out)
